@@ -376,7 +376,7 @@ def units(tier, seed):
                        stubs=['interp1d -> contract keyed by (kind, nodes): uninterpreted value, ValueError out of range unless extrapolate']))
     for kind, p in [('ns', dict(n=3)), ('rect', SP.LOTS_RECT[0]), ('2d', SP.LOTS_2D[0]), ('zd_zoned', SP.LOTS_ZD[0])]:
         for variant in ('repeat', 'nominal_height', 'after_unrelated'):
-            if tier == 'quick' and kind in ('2d', 'zd_zoned') and variant != 'nominal_height':
+            if tier == 'quick' and ((kind in ('2d', 'zd_zoned') and variant != 'nominal_height') or (kind == 'rect' and variant == 'after_unrelated')):
                 continue
             us.append(Unit('search_%s_%s' % (kind, variant), search_history_fn(kind, p, variant), None, SP.setup, F3,
                            '%s search (%s): %s; all sign patterns of the abstract temperatures' % (kind, p, variant), SP.ASSUME, SP.STUBS, max_seconds=1500))
